@@ -1028,20 +1028,20 @@ def _is_exception(node: ast.AST) -> bool:
     return False
 
 
-def _has_break(body: Sequence[ast.AST]) -> bool:
-    """Check if a loop body has a break statement that belongs to that loop."""
+def _has_break(body: Sequence[ast.AST], jump_types=(ast.Break,)) -> bool:
+    """Check if a loop body has a break (or other jump) statement that belongs to that loop."""
     for node in body:
-        if isinstance(node, ast.Break):
+        if isinstance(node, jump_types):
             return True
         if isinstance(node, (ast.For, ast.AsyncFor, ast.While)):
             # A break in the body of a nested loop belongs to that loop, but not one in its else
-            if _has_break(node.orelse):
+            if _has_break(node.orelse, jump_types):
                 return True
             continue
         if isinstance(node, (ast.FunctionDef, ast.AsyncFunctionDef, ast.ClassDef)):
             continue
         for field in ("body", "orelse", "finalbody", "handlers", "cases"):
-            if _has_break(getattr(node, field, None) or []):
+            if _has_break(getattr(node, field, None) or [], jump_types):
                 return True
 
     return False
@@ -1104,8 +1104,9 @@ def is_blocking(node: ast.AST, parent_type: ast.AST = None) -> bool:
             return False
 
     if isinstance(node, (ast.For, ast.While)):
-        if _has_break(node.body):
-            # Code after the loop is reached through the break, wherever it is nested
+        if _has_break(node.body, (ast.Break, ast.Continue)):
+            # Code after the loop is reached through the break, wherever it is nested, and a
+            # continue leads to the end of the loop past whatever follows it.
             return False
         for child in node.body:
             if is_blocking(child, type(node)):
